@@ -1,3 +1,337 @@
+import Mathlib.Data.List.Nodup
 import GnpyModel
-/- Property theorems for C15 (only the property theorems and their non-vacuity examples live here;
-   helper lemmas go to GnpyProofs/Lemmas). -/
+import GnpyProofs.Lemmas.SlotsMap
+import GnpyProofs.Lemmas.SlotsBands
+/- Property theorems for C15 — every designed network yields a consistent OMS partition and spectrum map.
+   Model: GnpyModel/Slots.lean (second half). Helper lemmas: GnpyProofs/Lemmas/SlotsMap.lean. -/
+namespace Gnpy.Slots
+open Gnpy.Py
+
+/-- **slots_roundtrip.** `slots_to_m(mvalue_to_slots(n, m)) = (n, m)` and the slot is `2·m` indices wide. -/
+theorem slots_roundtrip (n m : Int) :
+    slotsToM (mToSlots n m).1 (mToSlots n m).2 = (n, m) ∧ (mToSlots n m).2 - (mToSlots n m).1 + 1 = 2 * m :=
+  slotsToM_mToSlots n m
+
+/-- `frequency_to_n(nvalue_to_frequency(n)) = n` on every grid -/
+theorem frequency_roundtrip (n grid : Int) (hg : grid ≠ 0) : frequencyToN (nToFrequency n grid) grid = n :=
+  frequencyToN_nToFrequency_grid n grid hg
+
+/-- **bitmap_length.** For every band layout inside the network range (bands ascending, disjoint in slot index) the map
+    built by `create_oms_bitmap` has exactly one cell per index of `[n(f_min), n(f_max)]`, so `Bitmap.__init__` accepts
+    it (this failed for the code before ec64bb7b: `bitmap_length_fails_old`). -/
+theorem bitmap_length (bands : List Band) (fMin fMax grid gb : Int) (cells : List Cell)
+    (hl : LayoutOK grid (frequencyToN fMin grid - 1) bands (frequencyToN fMax grid))
+    (h : createOmsBitmap bands fMin fMax grid = .ok cells) :
+    cells.length = (frequencyToN fMax grid - frequencyToN fMin grid + 1).toNat ∧
+    ∃ b, Bitmap.create fMin fMax grid gb (some cells) = .ok b ∧ b.WF1 ∧ b.cells = cells ∧
+      b.nMin = frequencyToN fMin grid ∧ b.nMax = frequencyToN fMax grid := by
+  obtain ⟨h1, _⟩ := createOmsBitmap_spec bands fMin fMax grid cells hl h
+  refine ⟨h1, ?_⟩
+  have hg : ¬ grid = 0 := by
+    intro hg; unfold createOmsBitmap at h; rw [if_pos hg] at h; cases h
+  have hle := layout_le grid bands _ _ hl
+  unfold Bitmap.create
+  rw [if_neg hg]
+  have hlen : cells.length = (intRange (frequencyToN fMin grid) (frequencyToN fMax grid + 1)).length := by
+    rw [h1, length_intRange]; congr 1; omega
+  simp only [hlen, if_true]
+  exact ⟨_, rfl, ⟨⟨rfl, hlen⟩, by show frequencyToN fMin grid ≤ frequencyToN fMax grid + 1; omega⟩, rfl, rfl, rfl⟩
+
+/-- **usable_iff_in_common_band.** In that map a slot is usable (free) exactly when its index lies in one of the common
+    bands, and every other slot is unusable – none is occupied. -/
+theorem usable_iff_in_common_band (bands : List Band) (fMin fMax grid : Int) (cells : List Cell)
+    (hl : LayoutOK grid (frequencyToN fMin grid - 1) bands (frequencyToN fMax grid))
+    (h : createOmsBitmap bands fMin fMax grid = .ok cells) (k : Nat) (hk : k < cells.length) :
+    (cells[k]? = some Cell.free ↔ InBands grid bands (frequencyToN fMin grid + k)) ∧
+    (cells[k]? = some Cell.free ∨ cells[k]? = some Cell.unusable) := by
+  obtain ⟨_, h2⟩ := createOmsBitmap_spec bands fMin fMax grid cells hl h
+  rcases h2 k hk with ⟨a, b⟩ | ⟨a, b⟩
+  · exact ⟨⟨fun _ => b, fun _ => a⟩, Or.inl a⟩
+  · refine ⟨⟨fun hh => ?_, fun hh => absurd hh b⟩, Or.inr a⟩
+    rw [a] at hh; cases hh
+
+/-- "index inside a band" is "centre frequency of the slot inside the band", for every band edge, on or off the grid
+    (this is what the inward rounding of d0f17fb2 achieves; with truncation toward zero it failed for off-grid edges) -/
+theorem inBands_iff_frequency (bands : List Band) (x : Int) :
+    InBands defaultGrid bands x ↔ ∃ b ∈ bands, b.1 ≤ nToFrequency x ∧ nToFrequency x ≤ b.2 := by
+  have lo : ∀ f : Int, bandLo f defaultGrid ≤ x ↔ f ≤ nToFrequency x := by
+    intro f
+    unfold bandLo ceilDiv nToFrequency anchorHz defaultGrid
+    rw [Int.fdiv_eq_ediv_of_nonneg _ (by decide)]
+    omega
+  have hi : ∀ f : Int, x ≤ bandHi f defaultGrid ↔ nToFrequency x ≤ f := by
+    intro f
+    unfold bandHi floorDiv nToFrequency anchorHz defaultGrid
+    rw [Int.fdiv_eq_ediv_of_nonneg _ (by decide)]
+    omega
+  constructor
+  · rintro ⟨b, hb, h1, h2⟩
+    exact ⟨b, hb, (lo b.1).1 h1, (hi b.2).1 h2⟩
+  · rintro ⟨b, hb, h1, h2⟩
+    exact ⟨b, hb, (lo b.1).2 h1, (hi b.2).2 h2⟩
+
+/-- **common band = intersection.** The band list from which the map of an OMS is drawn (`find_common_range` of its
+    amplifiers) contains a frequency exactly when every amplifier of the OMS has a band containing it. -/
+theorem common_band_is_intersection (amps : List (List Band)) (dflt : Option Band) (f : Int) (hne : amps ≠ []) :
+    Inside (commonRange amps dflt) f ↔ ∀ a ∈ amps, Inside a f :=
+  commonRange_inside amps dflt f hne
+
+theorem nodup_intRange (a b : Int) : (intRange a b).Nodup := by
+  unfold intRange
+  apply List.Nodup.map _ List.nodup_range
+  intro x y hxy
+  simp only at hxy
+  omega
+
+/-- **align_index_unique.** After `align_grids` every map carries the contiguous index list of the common range
+    `[lo, hi]` = [lowest n_min, highest n_max]: each slot index exactly once, one cell per index (false for the
+    `insert_right` before 5edacf9c: `insert_right_dup_old`). -/
+theorem align_index_unique (l l' : List Bitmap) (hwf : ∀ b ∈ l, b.WF1) (h : alignGrids l = .ok l') :
+    ∃ lo hi, (∀ b ∈ l, lo ≤ b.nMin ∧ b.nMax ≤ hi) ∧ (∃ b ∈ l, b.nMin = lo) ∧ (∃ b ∈ l, b.nMax = hi) ∧
+      l'.length = l.length ∧
+      ∀ b' ∈ l', b'.nMin = lo ∧ b'.nMax = hi ∧ b'.freqIndex = intRange lo (hi + 1) ∧ b'.freqIndex.Nodup ∧
+        b'.cells.length = b'.freqIndex.length := by
+  obtain ⟨lo, hi, a1, a2, a3, a4, a5⟩ := alignGrids_spec l l' hwf h
+  refine ⟨lo, hi, a1, a2, a3, a4, ?_⟩
+  intro b' hb'
+  obtain ⟨i, hi'⟩ := List.mem_iff_getElem?.1 hb'
+  have hil : i < l.length := by
+    rw [← a4]
+    rcases Nat.lt_or_ge i l'.length with hh | hh
+    · exact hh
+    · rw [List.getElem?_eq_none hh] at hi'; cases hi'
+  obtain ⟨b'', g1, g2, g3, g4, _⟩ := a5 i l[i] (List.getElem?_eq_getElem hil)
+  rw [hi'] at g1; cases g1
+  obtain ⟨⟨w1, w2⟩, _⟩ := g2
+  refine ⟨g3, g4, by rw [w1, g3, g4], by rw [w1]; exact nodup_intRange _ _, w2⟩
+
+/-- **align_preserves_occupancy.** Alignment keeps every existing cell at its slot index (hence at its frequency) and
+    fills the added indices with `occupied`. -/
+theorem align_preserves_occupancy (l l' : List Bitmap) (hwf : ∀ b ∈ l, b.WF1) (h : alignGrids l = .ok l')
+    (i : Nat) (b b' : Bitmap) (hb : l[i]? = some b) (hb' : l'[i]? = some b') (x : Int) :
+    (b.nMin ≤ x → x ≤ b.nMax → b'.cellAt x = b.cellAt x) ∧
+    (b'.nMin ≤ x → x ≤ b'.nMax → ¬ (b.nMin ≤ x ∧ x ≤ b.nMax) → b'.cellAt x = some Cell.occupied) := by
+  obtain ⟨lo, hi, _, _, _, _, a5⟩ := alignGrids_spec l l' hwf h
+  obtain ⟨b'', g1, _, g3, g4, g5⟩ := a5 i b hb
+  rw [hb'] at g1; cases g1
+  refine ⟨fun h1 h2 => ?_, fun h1 h2 h3 => ?_⟩
+  · rw [g5 x, if_pos ⟨h1, h2⟩]
+  · rw [g5 x, if_neg h3, if_pos ⟨by omega, by omega⟩]
+
+/-! ### the OMS list -/
+
+theorem foldl_bandmin_le (bs : List Band) : ∀ a : Int, bs.foldl (fun a x => if x.1 < a then x.1 else a) a ≤ a := by
+  induction bs with
+  | nil => intro a; simp
+  | cons c cs ih =>
+    intro a
+    simp only [List.foldl_cons]
+    have := ih (if c.1 < a then c.1 else a)
+    by_cases hc : c.1 < a
+    · simp only [hc, if_true] at this ⊢; omega
+    · simp only [hc, if_false] at this ⊢; omega
+
+theorem foldl_bandmax_ge (bs : List Band) : ∀ a : Int, a ≤ bs.foldl (fun a x => if x.2 > a then x.2 else a) a := by
+  induction bs with
+  | nil => intro a; simp
+  | cons c cs ih =>
+    intro a
+    simp only [List.foldl_cons]
+    have := ih (if c.2 > a then c.2 else a)
+    by_cases hc : c.2 > a
+    · simp only [hc, if_true] at this ⊢; omega
+    · simp only [hc, if_false] at this ⊢; omega
+
+theorem frequencyToN_mono (f f' : Int) (h : f ≤ f') : frequencyToN f ≤ frequencyToN f' := by
+  simp only [frequencyToN, truncDiv, anchorHz, defaultGrid, tdiv_grid']
+  split <;> split <;> omega
+
+/-- **oms_partition / same_index_range.** `build_oms_list` turns every line system (ROADM · line elements · ROADM) into
+    exactly one OMS, ids in construction order, elements unchanged and in order – so each line element is in exactly
+    one OMS when it is in exactly one line system – and all spectrum maps are well formed over the same contiguous slot
+    range `[n(f_min), n(f_max)]` of the network-wide amplifier range. -/
+theorem oms_partition (chains : List Chain) (netBands : List Band) (si : Option Band) (l : List OmsRec)
+    (hne : ∀ b ∈ netBands, b.1 ≤ b.2) (h : buildOmsList chains netBands si = .ok l) :
+    ∃ fMin fMax, networkRange netBands = .ok (fMin, fMax) ∧ l.length = chains.length ∧
+      (∀ (i : Nat) (c : Chain), chains[i]? = some c → ∃ o, l[i]? = some o ∧ o.id = i ∧ o.els = c.els ∧
+        o.reversed = reversedOms (chains.map (·.els)) i) ∧
+      ∀ o ∈ l, o.bm.WF1 ∧ o.bm.nMin = frequencyToN fMin ∧ o.bm.nMax = frequencyToN fMax ∧
+        o.bm.freqIndex = intRange (frequencyToN fMin) (frequencyToN fMax + 1) := by
+  simp only [buildOmsList, bind, Except.bind] at h
+  cases hr : networkRange netBands with
+  | error e => rw [hr] at h; cases h
+  | ok rng =>
+    rw [hr] at h
+    obtain ⟨fMin, fMax⟩ := rng
+    simp only at h
+    have hrange : frequencyToN fMin ≤ frequencyToN fMax := by
+      apply frequencyToN_mono
+      unfold networkRange at hr
+      cases netBands with
+      | nil => cases hr
+      | cons b0 bs =>
+        simp only [pure, Except.pure, Except.ok.injEq, Prod.mk.injEq] at hr
+        have h1 := foldl_bandmin_le bs b0.1
+        have h2 := foldl_bandmax_ge bs b0.2
+        have h3 := hne b0 List.mem_cons_self
+        omega
+    cases hm : mapE (omsBitmap fMin fMax si) chains with
+    | error e => rw [hm] at h; cases h
+    | ok bms =>
+      rw [hm] at h
+      simp only at h
+      cases ha : alignGrids bms with
+      | error e => rw [ha] at h; cases h
+      | ok aligned =>
+        rw [ha] at h
+        simp only [pure, Except.pure, Except.ok.injEq] at h
+        obtain ⟨m1, m2⟩ := mapE_ok _ _ _ hm
+        -- every created map is well formed over the network range
+        have created : ∀ b ∈ bms, b.WF1 ∧ b.nMin = frequencyToN fMin ∧ b.nMax = frequencyToN fMax := by
+          intro b hb
+          obtain ⟨i, hi⟩ := List.mem_iff_getElem?.1 hb
+          have hil : i < chains.length := by
+            rw [← m1]
+            rcases Nat.lt_or_ge i bms.length with hh | hh
+            · exact hh
+            · rw [List.getElem?_eq_none hh] at hi; cases hi
+          obtain ⟨b2, g1, g2⟩ := m2 i chains[i] (List.getElem?_eq_getElem hil)
+          rw [hi] at g1; cases g1
+          simp only [omsBitmap, bind, Except.bind] at g2
+          cases hc : createOmsBitmap (commonRange chains[i].ampBands si) fMin fMax defaultGrid with
+          | error e => rw [hc] at g2; cases g2
+          | ok cells =>
+            rw [hc] at g2
+            simp only [Bitmap.create] at g2
+            have hg : ¬ defaultGrid = 0 := by decide
+            rw [if_neg hg] at g2
+            split at g2
+            · next hlen =>
+              simp only [pure, Except.pure, Except.ok.injEq] at g2
+              subst g2
+              exact ⟨⟨⟨rfl, hlen⟩, by show frequencyToN fMin ≤ frequencyToN fMax + 1; omega⟩, rfl, rfl⟩
+            · cases g2
+        obtain ⟨lo, hi, a1, ⟨bl, hbl, a2⟩, ⟨bh, hbh, a3⟩, a4, a5⟩ :=
+          alignGrids_spec bms aligned (fun b hb => (created b hb).1) ha
+        have hlo : lo = frequencyToN fMin := by rw [← a2]; exact (created bl hbl).2.1
+        have hhi : hi = frequencyToN fMax := by rw [← a3]; exact (created bh hbh).2.2
+        subst h
+        refine ⟨fMin, fMax, rfl, ?_, ?_, ?_⟩
+        · simp [List.length_zip, a4, m1]
+        · intro i c hc
+          have hil : i < chains.length := by
+            rcases Nat.lt_or_ge i chains.length with hh | hh
+            · exact hh
+            · rw [List.getElem?_eq_none hh] at hc; cases hc
+          have hib : i < aligned.length := by rw [a4, m1]; exact hil
+          refine ⟨{ id := i, els := c.els, bm := aligned[i], reversed := reversedOms (chains.map (·.els)) i }, ?_, rfl, rfl, rfl⟩
+          rw [List.getElem?_map, List.getElem?_zipIdx]
+          have hz : (chains.zip aligned)[i]? = some (c, aligned[i]) :=
+            List.getElem?_zip_eq_some.2 ⟨hc, List.getElem?_eq_getElem hib⟩
+          rw [hz]
+          show some _ = some _
+          rw [Nat.zero_add]
+        · intro o ho
+          obtain ⟨p, hp, rfl⟩ := List.mem_map.1 ho
+          obtain ⟨⟨c, b⟩, i⟩ := p
+          have hmem := List.mem_zipIdx hp
+          have hz : (c, b) ∈ chains.zip aligned := by
+            obtain ⟨_, h2, h3⟩ := hmem
+            rw [h3]; exact List.getElem_mem _
+          have hb : b ∈ aligned := (List.of_mem_zip hz).2
+          obtain ⟨j, hj⟩ := List.mem_iff_getElem?.1 hb
+          have hjl : j < bms.length := by
+            rw [← a4]
+            rcases Nat.lt_or_ge j aligned.length with hh | hh
+            · exact hh
+            · rw [List.getElem?_eq_none hh] at hj; cases hj
+          obtain ⟨b', g1, g2, g3, g4, _⟩ := a5 j bms[j] (List.getElem?_eq_getElem hjl)
+          rw [hj] at g1; cases g1
+          refine ⟨g2, by rw [g3, hlo], by rw [g4, hhi], ?_⟩
+          show b.freqIndex = _
+          rw [g2.1.1, g3, g4, hlo, hhi]
+
+/-- the OMS found by `reversed_oms` runs between the same two ROADMs the other way -/
+theorem reversed_endpoints (l : List (List String)) (i j : Nat) (h : reversedOms l i = some j) :
+    ∃ e o, l[i]? = some e ∧ l[j]? = some o ∧ e.head? = o.getLast? ∧ e.getLast? = o.head? := by
+  unfold reversedOms at h
+  cases he : l[i]? with
+  | none => rw [he] at h; cases h
+  | some e =>
+    rw [he] at h
+    simp only at h
+    obtain ⟨hj, hp, _⟩ := List.findIdx?_eq_some_iff_getElem.1 h
+    refine ⟨e, l[j], rfl, List.getElem?_eq_getElem hj, ?_⟩
+    simpa using hp
+
+/-- **opposite directions are paired.** When no two OMS run between the same ordered pair of ROADMs (no parallel
+    links), `reversed_oms` is an involution: the reverse of the reverse of an OMS is the OMS itself. -/
+theorem reversed_involution (l : List (List String))
+    (huniq : ∀ (a b : Nat) (x y : List String), l[a]? = some x → l[b]? = some y → x.head? = y.head? →
+      x.getLast? = y.getLast? → a = b)
+    (i j : Nat) (h : reversedOms l i = some j) : reversedOms l j = some i := by
+  obtain ⟨e, o, he, ho, h1, h2⟩ := reversed_endpoints l i j h
+  unfold reversedOms
+  rw [ho]
+  simp only
+  have hil : i < l.length := by
+    rcases Nat.lt_or_ge i l.length with hh | hh
+    · exact hh
+    · rw [List.getElem?_eq_none hh] at he; cases he
+  have hei : l[i] = e := by
+    have := List.getElem?_eq_getElem hil
+    rw [he] at this; exact (Option.some.inj this).symm
+  rw [List.findIdx?_eq_some_iff_getElem]
+  refine ⟨hil, ?_, ?_⟩
+  · rw [hei]; simp [h1, h2]
+  · intro k hk hpk
+    have hkl : k < l.length := by omega
+    have hpk' : o.head? = l[k].getLast? ∧ o.getLast? = l[k].head? := by simpa using hpk
+    have := huniq k i l[k] e (List.getElem?_eq_getElem hkl) he (by rw [← hpk'.2]; exact h1.symm) (by rw [← hpk'.1]; exact h2.symm)
+    omega
+
+/-! ### the two defects of the code before the repairs, decided on faithful models of the old code -/
+
+/-- F2: with the old `n_max = frequency_to_n(f_max) − 1` an OMS whose band ends below the network maximum gets a map
+    that is one cell short, which `Bitmap.__init__` rejects (C band 191.3–195.1 THz inside a 191.3–196.1 THz network) -/
+theorem bitmap_length_fails_old :
+    (createOmsBitmapOld [(anchorHz, anchorHz + 8 * defaultGrid)] anchorHz (anchorHz + 16 * defaultGrid) defaultGrid).toOption.map
+      List.length = some 16 ∧
+    (createOmsBitmap [(anchorHz, anchorHz + 8 * defaultGrid)] anchorHz (anchorHz + 16 * defaultGrid) defaultGrid).toOption.map
+      List.length = some 17 ∧
+    frequencyToN (anchorHz + 16 * defaultGrid) - frequencyToN anchorHz + 1 = 17 ∧
+    ((createOmsBitmapOld [(anchorHz, anchorHz + 8 * defaultGrid)] anchorHz (anchorHz + 16 * defaultGrid) defaultGrid).toOption.bind
+      (fun c => (Bitmap.create anchorHz (anchorHz + 16 * defaultGrid) defaultGrid defaultGuardband (some c)).toOption)) = none := by
+  decide
+
+/-- F3: the old `insert_right` started the new indices at `n_max`: the index list is no longer duplicate free -/
+theorem insert_right_dup_old :
+    ((Bitmap.create (anchorHz - 4 * defaultGrid) (anchorHz + 4 * defaultGrid) defaultGrid 0 none).toOption.bind
+      (fun b => (b.insertRightOld (rep 2 Cell.occupied)).toOption)).map (·.freqIndex) =
+      some [-4, -3, -2, -1, 0, 1, 2, 3, 4, 4, 5] ∧
+    ((Bitmap.create (anchorHz - 4 * defaultGrid) (anchorHz + 4 * defaultGrid) defaultGrid 0 none).toOption.bind
+      (fun b => (b.insertRight (rep 2 Cell.occupied)).toOption)).map (·.freqIndex) =
+      some [-4, -3, -2, -1, 0, 1, 2, 3, 4, 5, 6] := by decide
+
+section NonVacuity
+/-- a C+L layout inside a wider network range satisfies `LayoutOK` -/
+example : LayoutOK defaultGrid (frequencyToN 186000000000000 - 1)
+    [(186500000000000, 190100000000000), (191300000000000, 195100000000000)] (frequencyToN 196100000000000) := by
+  simp only [LayoutOK]
+  decide
+
+example : (createOmsBitmap [(anchorHz - 40 * defaultGrid, anchorHz - 20 * defaultGrid), (anchorHz - 8 * defaultGrid, anchorHz + 12 * defaultGrid)]
+    (anchorHz - 44 * defaultGrid) (anchorHz + 16 * defaultGrid) defaultGrid).toOption.map List.length = some 61 := by decide
+
+/-- two maps of different extent are aligned on the union range -/
+example : ((Bitmap.create (anchorHz - 4 * defaultGrid) (anchorHz + 2 * defaultGrid) defaultGrid 0 none).toOption.bind
+    (fun a => (Bitmap.create (anchorHz - 1 * defaultGrid) (anchorHz + 5 * defaultGrid) defaultGrid 0 none).toOption.bind
+      (fun b => (alignGrids [a, b]).toOption))).map (fun l => l.map (fun b => (b.nMin, b.nMax, b.cells.length))) =
+    some [(-4, 5, 10), (-4, 5, 10)] := by decide
+
+/-- reverse pairing on a three-ROADM line: 0 ↔ 1 and 2 ↔ 3 -/
+example : (List.range 4).map (reversedOms [["A", "f1", "B"], ["B", "f2", "A"], ["B", "f3", "C"], ["C", "f4", "B"]]) =
+    [some 1, some 0, some 3, some 2] := by decide
+end NonVacuity
+
+end Gnpy.Slots
